@@ -319,3 +319,112 @@ def check_qs_join_leave(ctx, unit):
             ok = bool(adj) and all(any(f.dominates(x.id, a.node.id) for x in adj) for a in rearm)
             ctx.inst("E.count-before-reset", "%s::%s" % (AGENT, name), ok and bool(rearm), f.loc,
                      "agent count adjusted before each of the %d ack-count stores: %s" % (len(rearm), ok), f)
+
+
+def check_qs_leave_deferred(ctx, unit):
+    """An agent that was the last to acknowledge a period in an idle domain postpones the advance (_qs_deferred) and is
+    the only one who will ever perform it.  offline() must therefore work in that state too: entered with the deferred
+    flag set it must reach a normal exit (not an assertion), with the postponed advance performed under the domain
+    mutex and the flag cleared.  Decided path-sensitively over the value of the flag."""
+    ctx.rule("E.leave-deferred", "offline() entered with a deferred grace period reaches a normal exit, advances the period "
+             "counter under the domain mutex on the way and leaves the deferred flag clear (an agent can leave an idle domain)", 1)
+    for f in _one(unit, AGENT + "::offline"):
+        flag = None
+        for r in unit.record(AGENT):
+            for fl in r["fields"]:
+                if fl["t"] == "bool":
+                    flag = fl["n"]
+        if flag is None:
+            raise AnalysisBroken("anchor vanished: deferred flag of qs_agent")
+        FP = ("this", flag)
+        acc = RA.accesses(f)
+        stores = {a.node.id for a in acc if a.op == "store" and a.obj and a.obj[-1] == "_qs_counter"}
+
+        def transfer(n, st):
+            d, adv = st
+            w = write_of(n)
+            if w and w[0] == FP and w[1] is not None:
+                v = w[1].strip()
+                if v.kind == "CXXBoolLiteralExpr":
+                    return [(bool(v.get("bv")), adv)]
+                return [(True, adv), (False, adv)]
+            if n.id in stores:
+                return [(d, True)]
+            return [st]
+
+        def refine(cond, truth, st):
+            v = flow.sem_eval(cond, lambda x: (int(st[0]) if path(x) == FP and x.strip().kind == "MemberExpr" else None))
+            if v is None or bool(v) == truth:
+                return [st]
+            return []
+        _, ex = flow.run(f, [(True, False)], transfer, refine)
+        problems = []
+        if not ex:
+            problems.append("entered with the deferred flag set, every path ends in an assertion failure: an agent that was the last "
+                            "to acknowledge in an idle domain cannot go offline")
+        else:
+            if any(d for d, _a in ex):
+                problems.append("a path returns with the deferred flag still set")
+            if any(not a for _d, a in ex):
+                problems.append("a path returns without performing the postponed advance of the period counter")
+        ctx.inst("E.leave-deferred", "%s::offline [entered deferred]" % AGENT, not problems, f.loc,
+                 "; ".join(problems) if problems else "normal exit with the postponed advance done and the flag clear", f)
+
+
+def _sc_fences(f):
+    """seq_cst fences of f: std::atomic_thread_fence / __atomic_thread_fence with a seq_cst order argument."""
+    out = []
+    for n in f.events():
+        if n.kind == "CallExpr" and n.callee and n.callee["n"] in ("atomic_thread_fence", "__atomic_thread_fence") and n.args:
+            c = n.args[0].strip().cv()
+            if c == 5:
+                out.append(n)
+    return out
+
+
+def check_qs_full_fences(ctx, unit):
+    """Store->load ordering, which acquire/release cannot give.  A grace period starts with the caller's *unlink* store
+    (to some other location) followed by the load of the period counter that fixes the target.  If that load may be
+    satisfied before the unlink is visible to the other agents (store buffering), an agent can acknowledge the period and
+    still read the old pointer afterwards, and the callback runs while it is in use.  Required, as in every QSBR:
+      (start) a seq_cst fence before the target load in await_barrier() and quiescent_barrier();
+      (ack)   a seq_cst fence on the acknowledging path of quiescent_state(), after the load that consumed the new period."""
+    ctx.rule("A1.grace-start-fence", "await_barrier()/quiescent_barrier(): the load of the period counter that fixes the target is "
+             "dominated by a sequentially consistent fence (orders it after the caller's unlink store)", 2)
+    ctx.rule("A1.ack-fence", "quiescent_state(): on the path that acknowledges a new period a sequentially consistent fence follows "
+             "the consuming load of the period counter (later read-side sections are ordered after the acknowledgement)", 1)
+    for name in ("await_barrier", "quiescent_barrier"):
+        for f in _one(unit, AGENT + "::" + name):
+            acc = RA.accesses(f)
+            inits = RA.local_inits(f)
+            tl = None
+            for did, init in inits.items():
+                v = init.strip()
+                if v.kind == "BinaryOperator" and v.op == "+":
+                    la = [x for x in acc if x.node.id == v.children[0].strip().id and x.obj and x.obj[-1] == "_qs_counter"]
+                    if la:
+                        tl = la[0]
+            if tl is None:
+                raise AnalysisBroken("anchor vanished: target computation in %s" % f.qn)
+            ok = tl.order == 5 and False      # a seq_cst load alone does not order an earlier plain/release store before it
+            ok = any(f.dominates(fc.id, tl.node.id) for fc in _sc_fences(f))
+            ctx.inst("A1.grace-start-fence", "%s::%s" % (AGENT, name), ok, tl.loc,
+                     "target load (%s) %s" % (tl.oname(), "is preceded by a seq_cst fence" if ok else
+                                              "is not ordered after the caller's earlier stores: it may read a period in which other agents "
+                                              "still see the old data, and the grace period ends one period early"), f)
+    for f in _one(unit, AGENT + "::quiescent_state"):
+        acc = RA.accesses(f)
+        acks = [a for a in acc if a.op == "rmw" and a.obj and a.obj[-1] == "_agents_to_ack"]
+        if not acks:
+            raise AnalysisBroken("anchor vanished: acknowledgement in quiescent_state")
+        fences = _sc_fences(f)
+        bad = []
+        for a in acks:
+            cons = [l for l in acc if l.op == "load" and l.obj and l.obj[-1] == "_qs_counter" and f.dominates(l.node.id, a.node.id)]
+            okf = any(any(f.dominates(l.node.id, fc.id) for l in cons) and (f.dominates(fc.id, a.node.id) or f.postdominates(fc.id, a.node.id))
+                      for fc in fences)
+            if not okf:
+                bad.append(a.loc)
+        ctx.inst("A1.ack-fence", "%s::quiescent_state" % AGENT, not bad, acks[0].loc,
+                 ("acknowledgement at %s without a seq_cst fence after the consuming load" % bad[0]) if bad else
+                 "seq_cst fence on the acknowledging path", f)
